@@ -52,7 +52,7 @@ def plan(tier):
           'selftest_runs_full': 96, 'shrink_budget_s': 120}
 
 
-SIZES_RAW = [0, 1, BLOCK - 1, BLOCK, BLOCK + 1, BLOCK * 7 // 2, 5000]
+SIZES_RAW = [0, 1, BLOCK - 1, BLOCK, BLOCK + 1, BLOCK * 7 // 2, 5000, 2 * BLOCK, 3 * BLOCK]
 SIZES_DEC = [0, 1, COPY - 1, COPY, COPY + 1, 3 * COPY, 200000, 5000]
 
 
@@ -70,6 +70,7 @@ def generate(seed, tier):
       'precached': g.weighted([('none', 6), ('compressed', 2 if compressed else 0), ('all', 1)]),
       'chunks': g.choice([None, None, [1000], [BLOCK // 2 + 1, 7], [65536], [1]]) ,
       'validate': g.chance(0.5),
+      'range_support': g.chance(0.5),
       'name': g.choice(['data.sqlite', 'a.b.bin', 'x']) + ('.lzma' if compressed else ''),
   }
   if cfg['chunks'] == [1] and cfg['size'] > 70000:
@@ -220,6 +221,7 @@ def _fresh(cfg):
   url = 'https://origin.example/ds/' + cfg['name']
   net.origins[url] = dl
   net.chunks = cfg['chunks']
+  net.range_support = cfg.get('range_support', False)
   name = f'{CACHE}/{cfg["name"]}'
   if cfg['stale_partial'] != 'none' or cfg['precached'] != 'none':
     fs.dirs.add(CACHE)
